@@ -4,7 +4,7 @@ import re
 
 from ..common import Check, coq_eval, coq_codes, harness
 from ..translate import gen_c13_span, gen_lex_tables
-from .c13_templates import TEMPLATES, parse_template, interp_templates
+from .c13_templates import TEMPLATES, TREE_CASES, parse_template, interp_templates
 
 TRUSTED = [
     "Coq 8.16.1 kernel (coqc, vm_compute); no axioms: every theorem is 'Closed under the global context'",
@@ -96,6 +96,9 @@ def gen_prefix_text(rng, cls):
         return [seg([1, 2, 3, 4], rng.randint(0, 5)) for _ in range(rng.randint(2, 4))], "\n"
     if cls == "crlf":
         return [seg([1, 2, 3], rng.randint(0, 5)) + "é" for _ in range(rng.randint(1, 3))], "\r\n"
+    if cls == "crlfa":
+        # ASCII only: a shift of spans behind CRLF line ends cannot be mistaken for the byte/character confusion (F9)
+        return [seg([1], rng.randint(0, 6)) for _ in range(rng.randint(1, 4))], "\r\n"
     if cls == "cr":
         return [seg([1, 2], rng.randint(0, 4)) for _ in range(rng.randint(1, 3))], "\r"
     if cls == "exotic":
@@ -109,7 +112,7 @@ def gen_prefix_text(rng, cls):
     raise ValueError(cls)
 
 
-PREFIX_CLASSES = ["none", "ascii", "b2", "b3", "b4", "mixed", "lines", "crlf", "cr", "exotic", "long", "huge"]
+PREFIX_CLASSES = ["none", "ascii", "b2", "b3", "b4", "mixed", "lines", "crlf", "crlfa", "cr", "exotic", "long", "huge"]
 
 
 def place(rng, tpl, segs, nl, how):
@@ -428,6 +431,26 @@ def run():
                 ck.disagreement("error %r: %s" % ((e.get("reason") or "")[:80], "; ".join("%s (%s)" % b for b in bad)[:300]), d, classify)
             elif len(ck.coverage["samples"]) < 8 and c["pcls"] not in ("none", "ascii") and e.get("span"):
                 ck.sample({"src": c["src"], "reason": e["reason"][:80], "span": e["span"], "location": e["location"], "multi": bool(c["multi"])})
+
+    # ---------------------------------------------------------------- 2a. directed file-tree inputs (errors only a SourceTree provokes)
+    tree_ans = harness("c13tree", [{k: v for k, v in tc.items() if k != "want"} for tc in TREE_CASES])
+    for tc, a in zip(TREE_CASES, tree_ans):
+        ck.count("tree-directed", json.dumps(tc["files"]) + json.dumps(tc.get("database")))
+        base = {"files": tc["files"], "database": tc.get("database"), "kind": "tree"}
+        if "err" not in a:
+            ck.violation("file tree %r: expected the error %r, got %s" % (tc["files"], tc["want"], str(a)[:200]), base)
+            continue
+        byname = dict((f[0], f[1]) for f in tc["files"] if isinstance(f[0], str))
+        fbi = {i: byname[p_] for i, p_ in (a.get("ids") or {}).items() if p_ in byname}
+        if not any((e.get("reason") or "").startswith(tc["want"]) for e in a["err"]):
+            ck.violation("file tree %r: expected the error %r, got %r" % (tc["files"], tc["want"], [e.get("reason") for e in a["err"]]), base)
+        for e in a["err"]:
+            note_sites(e, json.dumps(tc["files"])[:120])
+            bad, _ = check_message(e, fbi)
+            ck.stat("tree-directed", "span:" + ("some" if e.get("span") else "none"))
+            if bad:
+                ck.disagreement("file tree error %r: %s" % ((e.get("reason") or "")[:80], "; ".join("%s (%s)" % b for b in bad)[:300]),
+                                dict(base, clauses=[b[0] for b in bad], reason=e.get("reason"), span=e.get("span")), None)
 
     # ---------------------------------------------------------------- 2b. the same clauses for `prql_to_tokens` (prqlc lex)
     # d650e1d: its errors are composed against the one-file tree (source id 1): span, location and excerpt like compile's
